@@ -10,6 +10,7 @@ import (
 	"golang.org/x/tools/go/ssa"
 
 	"verif/tools/internal/core"
+	"verif/tools/internal/ssax"
 )
 
 // EvalVarInit evaluates `var name = f(const...)` by interpreting f's SSA.
@@ -113,7 +114,8 @@ func EvalDispatch(p *core.Program) (*Dispatch, error) {
 	d := &Dispatch{Var: name, Builder: b}
 	for _, e := range s.Elems {
 		f, _ := e.(*ssa.Function)
-		d.Table = append(d.Table, f)
+		// a method expression (*T).lex is stored as its thunk: same lexer
+		d.Table = append(d.Table, ssax.Unwrap(f))
 	}
 	return d, nil
 }
